@@ -610,6 +610,9 @@ func (cx *c25Ctx) ruleR3() {
 			if f.Nil {
 				return false
 			}
+			if c25IndexFound(f, func(v ssa.Value) bool { return v == cmd }) {
+				return true
+			}
 			switch x := f.V.(type) {
 			case *ssa.BinOp:
 				if !((x.Op == token.EQL && f.Pol) || (x.Op == token.NEQ && !f.Pol)) {
@@ -647,10 +650,49 @@ func (cx *c25Ctx) ruleR3() {
 	}
 }
 
+// c25IndexFound: the fact establishes slices.Index(Whitelist, needle) != -1 where needle
+// satisfies isNeedle.
+func c25IndexFound(f kit.G8Fact, isNeedle func(ssa.Value) bool) bool {
+	if f.Nil {
+		return false
+	}
+	b, ok := f.V.(*ssa.BinOp)
+	if !ok {
+		return false
+	}
+	x, y, op := b.X, b.Y, b.Op
+	if _, isC := x.(*ssa.Const); isC {
+		x, y, op = y, x, flipCmp(op)
+	}
+	c, ok := x.(*ssa.Call)
+	k, isK := kit.ConstInt(y)
+	if !ok || !isK || (k != 0 && k != -1) {
+		return false
+	}
+	cal := kit.CalleeOf(c)
+	if cal.Pkg != "slices" || cal.Name != "Index" || len(c.Call.Args) != 2 || !c25CfgField(c.Call.Args[0], "Whitelist") || !isNeedle(c.Call.Args[1]) {
+		return false
+	}
+	switch op {
+	case token.LSS, token.LEQ, token.GTR, token.GEQ, token.EQL, token.NEQ:
+	default:
+		return false
+	}
+	// the edge must exclude the outcome -1 (ordering of -1 relative to k)
+	ord := -1
+	if k == -1 {
+		ord = 0
+	}
+	return cmpHolds(op, ord) != f.Pol
+}
+
 // c25StarFact: some whitelist element equals "*" exactly.
 func c25StarFact(f kit.G8Fact) bool {
 	if f.Nil {
 		return false
+	}
+	if c25IndexFound(f, func(v ssa.Value) bool { s, ok := kit.ConstString(v); return ok && s == "*" }) {
+		return true
 	}
 	switch x := f.V.(type) {
 	case *ssa.BinOp:
@@ -1312,6 +1354,100 @@ func (cx *c25Ctx) releaseOnce() {
 		return kit.CalleeOf(c).Static == cx.release
 	}
 	judged := map[ssa.Instruction]bool{}
+	// a local clean-up closure that is only ever called (never stored, deferred or spawned) and
+	// releases exactly once on each of its paths counts as one release at each of its call
+	// sites in the parent: its call sites are judged, not its body in isolation
+	direct := isRelease
+	closureRel := map[*ssa.MakeClosure]int{} // 0 unknown, 1 yes, 2 no
+	releasingClosure := func(in ssa.Instruction) *ssa.MakeClosure {
+		c, ok := in.(*ssa.Call)
+		if !ok {
+			return nil
+		}
+		mc, ok := c.Call.Value.(*ssa.MakeClosure)
+		if !ok {
+			return nil
+		}
+		if closureRel[mc] == 0 {
+			closureRel[mc] = 2
+			fn, _ := mc.Fn.(*ssa.Function)
+			onlyCalled := fn != nil && fn.Blocks != nil && mc.Referrers() != nil
+			if onlyCalled {
+				for _, ref := range *mc.Referrers() {
+					rc, isCall := ref.(*ssa.Call)
+					if !isCall || rc.Call.Value != ssa.Value(mc) {
+						onlyCalled = false
+						break
+					}
+					for _, a := range rc.Call.Args {
+						if a == ssa.Value(mc) {
+							onlyCalled = false
+						}
+					}
+				}
+			}
+			if onlyCalled {
+				// exactly one release on every path of the closure
+				st := map[*ssa.BasicBlock]uint8{fn.Blocks[0]: 1}
+				cnt := func(b *ssa.BasicBlock, s uint8) uint8 {
+					for _, ins := range b.Instrs {
+						if direct(ins) {
+							var o uint8
+							if s&1 != 0 {
+								o |= 2
+							}
+							if s&6 != 0 {
+								o |= 4
+							}
+							s = o
+						}
+					}
+					return s
+				}
+				for changed := true; changed; {
+					changed = false
+					for _, b := range fn.Blocks {
+						s0, ok := st[b]
+						if !ok {
+							continue
+						}
+						o := cnt(b, s0)
+						for _, succ := range b.Succs {
+							if st[succ]|o != st[succ] {
+								st[succ] |= o
+								changed = true
+							}
+						}
+					}
+				}
+				once, any := true, false
+				for _, ret := range kit.Returns(fn) {
+					if ret.Block() == fn.Recover {
+						continue
+					}
+					if s0, ok := st[ret.Block()]; ok {
+						any = true
+						if cnt(ret.Block(), s0) != 2 {
+							once = false
+						}
+					}
+				}
+				if once && any {
+					closureRel[mc] = 1
+					kit.Instrs(fn, func(ins ssa.Instruction) {
+						if direct(ins) {
+							judged[ins] = true
+						}
+					})
+				}
+			}
+		}
+		if closureRel[mc] == 1 {
+			return mc
+		}
+		return nil
+	}
+	isRelease = func(in ssa.Instruction) bool { return direct(in) || releasingClosure(in) != nil }
 	nCtor := 0
 	for _, f := range cx.fns {
 		var gateCall *ssa.Call
@@ -2198,5 +2334,38 @@ var c25SelfTests = []SelfTest{
 		{File: c25E, Old: c25AcquireBody, New: "\tif !e.limiter.acquire(e.config.MaxSessions) {\n\t\treturn fmt.Errorf(\"max sessions (%d) reached\", e.config.MaxSessions)\n\t}\n\treturn nil\n"},
 		{File: c25E, Old: "\te.mu.Lock()\n\tdefer e.mu.Unlock()\n\n\tif e.sessions > 0 {\n\t\te.sessions--\n\t}\n", New: "\te.limiter.release()\n"},
 		{File: c25E, Old: "\te.mu.Lock()\n\tdefer e.mu.Unlock()\n\treturn e.sessions\n", New: "\treturn e.limiter.count()\n"},
+	}},
+	// ---- round 5: refactoring classes
+	{Name: "rewrite: construction error clean-up in a local closure", Edits: []Edit{
+		{File: c25E, Old: "\t// Create command\n\tcmd := exec.CommandContext(sessionCtx, meta.Command, meta.Args...)\n", New: "\t// abandon undoes what has been set up so far.\n\tabandon := func(opened ...io.Closer) {\n\t\tfor _, c := range opened {\n\t\t\tc.Close()\n\t\t}\n\t\tcancel()\n\t\te.ReleaseSession()\n\t}\n\n\t// Create command\n\tcmd := exec.CommandContext(sessionCtx, meta.Command, meta.Args...)\n"},
+		{File: c25E, Old: "\t\tstdin.Close()\n\t\tstdout.Close()\n\t\tcancel()\n\t\te.ReleaseSession()\n\t\treturn nil, fmt.Errorf(\"failed to create stderr pipe", New: "\t\tabandon(stdin, stdout)\n\t\treturn nil, fmt.Errorf(\"failed to create stderr pipe"},
+		{File: c25E, Old: "\t\tstdin.Close()\n\t\tcancel()\n\t\te.ReleaseSession()\n\t\treturn nil, fmt.Errorf(\"failed to create stdout pipe", New: "\t\tabandon(stdin)\n\t\treturn nil, fmt.Errorf(\"failed to create stdout pipe"},
+		{File: c25E, Old: "\t\tcancel()\n\t\te.ReleaseSession()\n\t\treturn nil, fmt.Errorf(\"failed to create stdin pipe", New: "\t\tabandon()\n\t\treturn nil, fmt.Errorf(\"failed to create stdin pipe"},
+	}},
+	{Name: "clean-up closure also run on the success path", ExpectRule: "C25.R5", ExpectKey: "NewSession return", Edits: []Edit{
+		{File: c25E, Old: "\t// Create command\n\tcmd := exec.CommandContext(sessionCtx, meta.Command, meta.Args...)\n", New: "\t// abandon undoes what has been set up so far.\n\tabandon := func(opened ...io.Closer) {\n\t\tfor _, c := range opened {\n\t\t\tc.Close()\n\t\t}\n\t\tcancel()\n\t\te.ReleaseSession()\n\t}\n\n\t// Create command\n\tcmd := exec.CommandContext(sessionCtx, meta.Command, meta.Args...)\n"},
+		{File: c25E, Old: "\t\tstdin.Close()\n\t\tstdout.Close()\n\t\tcancel()\n\t\te.ReleaseSession()\n\t\treturn nil, fmt.Errorf(\"failed to create stderr pipe", New: "\t\tabandon(stdin, stdout)\n\t\treturn nil, fmt.Errorf(\"failed to create stderr pipe"},
+		{File: c25E, Old: "\t\tstdin.Close()\n\t\tcancel()\n\t\te.ReleaseSession()\n\t\treturn nil, fmt.Errorf(\"failed to create stdout pipe", New: "\t\tabandon(stdin)\n\t\treturn nil, fmt.Errorf(\"failed to create stdout pipe"},
+		{File: c25E, Old: "\t\tcancel()\n\t\te.ReleaseSession()\n\t\treturn nil, fmt.Errorf(\"failed to create stdin pipe", New: "\t\tabandon()\n\t\treturn nil, fmt.Errorf(\"failed to create stdin pipe"},
+		{File: c25E, Old: "\treturn session, nil\n", New: "\tabandon()\n\treturn session, nil\n"},
+	}},
+	{Name: "clean-up closure deferred", ExpectRule: "C25.R5", ExpectKey: "release reference", Edits: []Edit{
+		{File: c25E, Old: "\t// Create command\n\tcmd := exec.CommandContext(sessionCtx, meta.Command, meta.Args...)\n", New: "\t// abandon undoes what has been set up so far.\n\tabandon := func(opened ...io.Closer) {\n\t\tfor _, c := range opened {\n\t\t\tc.Close()\n\t\t}\n\t\tcancel()\n\t\te.ReleaseSession()\n\t}\n\n\t// Create command\n\tcmd := exec.CommandContext(sessionCtx, meta.Command, meta.Args...)\n"},
+		{File: c25E, Old: "\t\tstdin.Close()\n\t\tstdout.Close()\n\t\tcancel()\n\t\te.ReleaseSession()\n\t\treturn nil, fmt.Errorf(\"failed to create stderr pipe", New: "\t\tabandon(stdin, stdout)\n\t\treturn nil, fmt.Errorf(\"failed to create stderr pipe"},
+		{File: c25E, Old: "\t\tstdin.Close()\n\t\tcancel()\n\t\te.ReleaseSession()\n\t\treturn nil, fmt.Errorf(\"failed to create stdout pipe", New: "\t\tabandon(stdin)\n\t\treturn nil, fmt.Errorf(\"failed to create stdout pipe"},
+		{File: c25E, Old: "\t\tcancel()\n\t\te.ReleaseSession()\n\t\treturn nil, fmt.Errorf(\"failed to create stdin pipe", New: "\t\tabandon()\n\t\treturn nil, fmt.Errorf(\"failed to create stdin pipe"},
+		{File: c25E, Old: "\t// Set up pipes\n", New: "\tdefer abandon()\n\n\t// Set up pipes\n"},
+	}},
+	{Name: "rewrite: whitelist decided in one pass with a loop-carried flag, wildcard via slices.Index", Edits: []Edit{
+		{File: c25E, Old: "\t\"regexp\"\n", New: "\t\"regexp\"\n\t\"slices\"\n"},
+		{File: c25E, Old: "\tfor _, w := range e.config.Whitelist {\n\t\tif w == \"*\" {\n\t\t\treturn true\n\t\t}\n\t}\n\treturn false\n}", New: "\treturn slices.Index(e.config.Whitelist, \"*\") >= 0\n}"},
+		{File: c25E, Old: "\tif len(e.config.Whitelist) == 0 {\n\t\treturn false\n\t}\n\n\tif e.hasWildcard() {\n\t\treturn true\n\t}\n\n\t// Only allow base command names - no paths allowed\n\tif strings.ContainsAny(command, \"/\\\\\") {\n\t\treturn false\n\t}\n\n\t// Command must match exactly (case-sensitive)\n\tfor _, allowed := range e.config.Whitelist {\n\t\tif allowed == command {\n\t\t\treturn true\n\t\t}\n\t}\n\n\treturn false\n}\n", New: "\tlisted := false\n\tfor _, entry := range e.config.Whitelist {\n\t\tif entry == \"*\" {\n\t\t\treturn true\n\t\t}\n\t\tif entry == command {\n\t\t\tlisted = true\n\t\t}\n\t}\n\treturn listed && !strings.ContainsAny(command, \"/\\\\\")\n}\n"},
+	}},
+	{Name: "one-pass whitelist flag set on a prefix match", ExpectRule: "C25.R3", ExpectKey: "IsCommandAllowed", Edits: []Edit{
+		{File: c25E, Old: "\tif len(e.config.Whitelist) == 0 {\n\t\treturn false\n\t}\n\n\tif e.hasWildcard() {\n\t\treturn true\n\t}\n\n\t// Only allow base command names - no paths allowed\n\tif strings.ContainsAny(command, \"/\\\\\") {\n\t\treturn false\n\t}\n\n\t// Command must match exactly (case-sensitive)\n\tfor _, allowed := range e.config.Whitelist {\n\t\tif allowed == command {\n\t\t\treturn true\n\t\t}\n\t}\n\n\treturn false\n}\n", New: "\tlisted := false\n\tfor _, entry := range e.config.Whitelist {\n\t\tif entry == \"*\" {\n\t\t\treturn true\n\t\t}\n\t\tif strings.HasPrefix(command, entry) {\n\t\t\tlisted = true\n\t\t}\n\t}\n\treturn listed && !strings.ContainsAny(command, \"/\\\\\")\n}\n"},
+	}},
+	{Name: "wildcard via slices.Index with the wrong bound", ExpectRule: "C25.R6", ExpectKey: "hasWildcard", Edits: []Edit{
+		{File: c25E, Old: "\t\"regexp\"\n", New: "\t\"regexp\"\n\t\"slices\"\n"},
+		{File: c25E, Old: "\tfor _, w := range e.config.Whitelist {\n\t\tif w == \"*\" {\n\t\t\treturn true\n\t\t}\n\t}\n\treturn false\n}", New: "\treturn slices.Index(e.config.Whitelist, \"*\") >= -1\n}"},
 	}},
 }
